@@ -48,7 +48,7 @@ RULE = ('states = (previous row, current row) pairs of real bent_plume_model sim
         'first and last stored row always included), unperturbed and randomly perturbed (element mass/salt/heat, momentum '
         'magnitude and direction incl. vertical, depth, arc length incl. ds=0, particle masses incl. zero, heats, ages, '
         'positions inside and outside the half-width, dissolved pool, tracers), each with random in/out-of-plume flags given '
-        'both through the integrate flag and through NaN-marked positions; floors on every regime are obligations; a state '
+        'both as in a live run (integrate flag, sim_stored False, FINITE coordinates of the retired particle beyond or inside the half-width; floor 10 % of the states) and as on a stored row (NaN-marked positions, sim_stored True); floors on every regime are obligations; a state '
         'is non-trivial when its (scenario, row, perturbation) key is new and md != 0')
 LEVEL_NOTE = ('theorems over the reals about my transcriptions of lmp.derivs and of its closures (Model/Lmp.lean); tied to /repo on '
               'every generated state by slot-by-slot comparison and by an independent oracle for the closure values; the '
@@ -568,6 +568,12 @@ def eval_state(tam, bpm, prf, parts, q_prev, t_prev, q, t, flags, mode):
     qp = tam['lmp'].derivs(t, q, q0l, q1l, prf, bpm.p, parts)
     qp = np.array(qp, dtype=float)
     env, ps = _read_closures(tam, q, q0l, q1l, bpm.p, parts, lay)
+    # whether a particle is inside the plume is an INPUT of the evaluation: in a live run (sim_stored = False) it is the
+    # integrate flag the loop set (the solver's own state keeps finite coordinates for a retired particle), on a stored
+    # row it is the NaN mark.  What the code made of the flag is recorded separately
+    flag_after = [bool(pt.integrate) for pt in parts]
+    for i, p_ in enumerate(ps):
+        p_['integrate'] = bool(flags[i]) if mode != 'stored' else (not bool(np.isnan(q[lay['particles'][i]['X'][0]])))
     # the slot map used by the budgets must be the one LagElement.update unpacks with
     unpack_ok = True
     for i, sl in enumerate(lay['particles']):
@@ -582,7 +588,7 @@ def eval_state(tam, bpm, prf, parts, q_prev, t_prev, q, t, flags, mode):
     real = _real_snapshot(q0l, q1l, parts)
     ind = _independent(tam, prf, bpm, qp0, q, parts, lay)
     return {'q': q, 'q_prev': qp0, 'qp': qp, 'env': env, 'ps': ps, 'lay': lay, 'unpack_ok': bool(unpack_ok),
-            'real': real, 'ind': ind, 'p': bpm.p}
+            'real': real, 'ind': ind, 'p': bpm.p, 'flag_after': flag_after}
 
 
 ELEM_NAMES = ['S', 'T', 'u', 'v', 'w', 'hvel', 'V', 'h', 'b', 'sin_p', 'cos_p', 'sin_t', 'cos_t', 'phi', 'theta']
@@ -671,6 +677,7 @@ def run(ctx, lean_ok):
     states = []        # (case, result)
     nfail_build = 0
     nstate_ok = nstate_rej = 0
+    n_live_out = 0
     for i in range(nscn):
         scn = _scenario(ctx, i)
         try:
@@ -715,6 +722,21 @@ def run(ctx, lean_ok):
                     q, tag = _perturb(r, q, lay0, q_prev, b_guess, kinds, zero_slots)
                     flags = [r.random() < 0.7 for _ in parts]
                     mode = r.choice(['stored', 'flag'])
+                if mode == 'flag':
+                    # as the SOLVER sees a retired particle: integrate = False, sim_stored = False, finite (l, n, m) in the
+                    # state vector -- beyond the half-width (just retired) or inside it (retired earlier, element grew)
+                    q = np.array(q, dtype=float)
+                    Vel = float(np.linalg.norm(q[3:6])) / q[0]
+                    bq = math.sqrt(q[0] / (1030. * math.pi * q[6] * Vel)) if Vel > 0 else 0.5 * bpm.D
+                    for i_, sl in enumerate(lay0['particles']):
+                        if not flags[i_]:
+                            a_ = sl['X'][0]
+                            if np.isnan(q[a_]) or r.random() < 0.5:
+                                rad, ang = bq * r.choice([r.uniform(1.01, 1.6), r.uniform(0.1, 0.95)]), r.uniform(0., 2 * math.pi)
+                                q[a_:a_ + 3] = [0., rad * math.cos(ang), rad * math.sin(ang)]
+                            ctx.count('live-outside-particle-finite-coordinates:' + ('beyond-b' if math.hypot(q[a_ + 1], q[a_ + 2]) > bq else 'inside-b'))
+                    if not all(flags):
+                        n_live_out += 1
                 case = _case(scn, k, q_prev, t_prev, q, t, flags, mode, tag)
                 try:
                     with np.errstate(all='ignore'):
@@ -764,6 +786,10 @@ def run(ctx, lean_ok):
                'rejected: %r' % {k: v for k, v in ctx.hist.items() if k.startswith('state-rejected')})
     floors = {'soluble-in': 100, 'soluble-out': 30, 'inert-in': 50, 'inert-out': 15, 'element-k_bio-nonzero': 20, 'particles=0': 1,
               'particles=6': 1, 'mode=flag': 50, 'mode=stored': 50, 'alt-evaluation:remove': 30, 'alt-evaluation:reorder': 5}
+    ctx.oblige('floor: at least 10 %% of the states are live-run states (sim_stored = False) with a retired particle that keeps FINITE coordinates (%d of %d)' % (n_live_out, nstate_ok + nstate_rej),
+               n_live_out >= 0.10 * (nstate_ok + nstate_rej), '')
+    floors['live-outside-particle-finite-coordinates:beyond-b'] = 20
+    floors['live-outside-particle-finite-coordinates:inside-b'] = 20
     floors['zero-mass-component-taking-up-from-water'] = int(math.ceil(0.15 * max(nstate_ok, 1)))
     floors['zero-mass-component-used-up'] = 10
     short = {k: ctx.hist.get(k, 0) for k, v in floors.items() if ctx.hist.get(k, 0) < v}
@@ -786,6 +812,11 @@ def run(ctx, lean_ok):
         for i, blk in outside_nonzero(qp, ps, lay):
             ctx.violation('outside-particle-contributes', 'a particle outside the plume has a non-zero derivative slot',
                           dict(case, particle=i, block=blk))
+        for i, p_ in enumerate(ps):
+            if res['flag_after'][i] != p_['integrate']:
+                ctx.violation('integrate-flag-changed', 'evaluating the right-hand side changed the in/out-of-plume flag of a particle (integrate was %r, is %r afterwards; coordinates in the state: %r)'
+                              % (p_['integrate'], res['flag_after'][i], [float(x) for x in res['q'][lay['particles'][i]['X'][0]:lay['particles'][i]['X'][1]]]),
+                              dict(case, particle=i))
         finite_in = all(np.all(np.isfinite(x)) for x in [env['s'], env['c_chems'], env['ca_chems'], env['cpe'], env['k_bio'],
                                                          env['ca_tracers']])
         for p in ps:
